@@ -31,6 +31,9 @@ type EchoOpts struct {
 	C2S, S2C []byte
 	// C2SParts, if set, are the sizes of the successive Write calls the client makes for C2S (default: one Write).
 	C2SParts []int
+	// Think: the server application takes this long (virtual time) before it answers; the client waits in Read
+	// without any deadline of its own
+	Think time.Duration
 	// NoClose leaves the endpoints open at the end (caller closes).
 	NoClose bool
 }
@@ -115,6 +118,9 @@ func SpawnHandshakeEcho(w *World, p *Pair, o EchoOpts, out *HSOut, tag string) {
 				out.SEchoErr = "server read: " + err.Error()
 				p.S.Close()
 				return
+			}
+			if o.Think > 0 {
+				vs.Sleep(o.Think)
 			}
 			if _, err := p.S.Write(o.S2C); err != nil {
 				out.SEchoErr = "server write: " + err.Error()
